@@ -581,9 +581,11 @@ def inventory(ctx, F, scope, table, rule="R-INV", kinds=None):
         if not fallback:
             rows = tab.get(key, [])
         else:
+            # (a) the same function, kind and term in another file (the function was moved); (b) same function, kind, outer shape
             root = s.fn.split("::{closure")[0]
-            rows = [r for r in all_rows if r["kind"] == s.kind and any(x.split("::{closure")[0] == root for x in r.get("in", []))
-                    and coarse(r["nterm"] if "nterm" in r else r.get("term", "")) == coarse(s.nterm)]
+            same_fn = [r for r in all_rows if r["kind"] == s.kind and any(x.split("::{closure")[0] == root for x in r.get("in", []))]
+            rows = [r for r in same_fn if (r["nterm"] if "nterm" in r else r.get("term", "")) == s.nterm] + \
+                   [r for r in same_fn if coarse(r["nterm"] if "nterm" in r else r.get("term", "")) == coarse(s.nterm)]
         if True:
             done = False
             why = []
